@@ -15,7 +15,7 @@ from ..refs import peaks_ref as ref
 from .c11 import lcg_word
 
 ROOT = 3
-TOLS = (0.5, 1.5)
+TOLS = (0.5, 1.5, 2.5)
 
 
 def _roots(alpha, lmax, tag):
@@ -56,7 +56,8 @@ def as_ints(x):
     return [int(v) for v in np.asarray(x).ravel().tolist()]
 
 
-def check_word(r, w, fam, containers=('f', 'i', 'l')):
+def check_word(r, w, fam, containers=('f', 'i', 'l'), tols=None):
+    tols = TOLS if tols is None else tols
     n = len(w)
     r.states += 1
     sub0 = {'fam': fam, 'w': w if n <= 16 else 'long'}
@@ -82,7 +83,7 @@ def check_word(r, w, fam, containers=('f', 'i', 'l')):
                         z0[keep] = as_ints(got)
                     except Exception:
                         pass
-        for tol in TOLS:
+        for tol in tols:
             sub = dict(sub0, keep=keep, tol=tol)
             ok, got = r.call('crossings.tol', sub, pc.get_zero_crossings_array_indices, np.array(w, dtype=float),
                              keep_adj_zeros=keep, tol=tol)
@@ -146,7 +147,7 @@ def check_word(r, w, fam, containers=('f', 'i', 'l')):
             if ok:
                 r.expect_ints('switched.wrapper', dict(sub0, input=inp), got, s0)
     if s0 is not None:
-        for tol in TOLS:
+        for tol in tols:
             sub = dict(sub0, tol=tol)
             ok, got = r.call('switched.tol', sub, pc.get_switched_peak_array_indices, np.array(w, dtype=float), tol=tol)
             if ok:
@@ -217,7 +218,7 @@ def run_case(case):
     fam = case['fam']
     if fam == 'long':
         w = lcg_word(case['seed'], case['n'], case['levels'], case['stick'])
-        check_word(r, w, 'long:%d:%d:%d:%d' % (case['seed'], case['n'], case['levels'], case['stick']), containers=('f',))
+        check_word(r, w, 'long:%d:%d:%d:%d' % (case['seed'], case['n'], case['levels'], case['stick']), containers=('f',), tols=TOLS[:2])   # the open finding of tol=2.5 is keyed by enumerated words only
         return r
     root = tuple(case['root'])
     alpha = case['alpha']
